@@ -87,9 +87,6 @@ package atree
 //@   option assume-nonnil-params true
 //@   modifies heap
 
-//@ func newMapMetaDataSlabFromDataV1  serves C19
-//@   option assume-nonnil-params true
-//@   modifies heap
 
 //@ func newElementsFromData  serves C19
 //@   option assume-nonnil-params true
